@@ -6,7 +6,7 @@ import signal
 import refcodec
 from lib import hx
 
-EXTRA_PROPS = ['C03Nominal']
+EXTRA_PROPS = ['C03Nominal', 'C03Size']
 
 EXTRACT = ['gen.c03nominal']
 
@@ -299,10 +299,16 @@ def run(ctx):
                     sz_s, sz = impl_size(T, n)
                     if sz != len(b):
                         bad = 'size() = %s but the encoding has %d bytes' % (sz_s, len(b))
-            if 0 <= n:
-                sz_s, _ = impl_size(T, n)
-                if sz_s != smo:
+            # size(): hard tie for n >= 0; for negatives (Props/C03Size: the table walk answers 1
+            # although send raises) the comparison is RECORDED only -- the property says nothing about
+            # size() of a negative, so a guard added there must not raise an alarm.
+            sz_s, _ = impl_size(T, n)
+            ctx.count('size.' + sz_s.split()[0] + ('.neg' if n < 0 else ''))
+            if sz_s != smo:
+                if 0 <= n:
                     ctx.disagree(name + '.size', n, smo, sz_s)
+                else:
+                    ctx.count('size.neg.differs-from-model(recorded, not judged)')
             if bad:
                 ctx.violation('%s.send(%d): %s' % (name, n, bad), {'type': name, 'n': n, 'impl': ie},
                               key={'op': name + '.send', 'n': n})
